@@ -182,3 +182,14 @@ pub fn guarded<T>(f: impl FnOnce() -> T) -> Result<T, String> {
         }
     })
 }
+
+/// Runs one generated case.  A panic of the library that none of the case's own guards caught (for
+/// instance inside a lookup the oracle itself makes) is an oracle failure of that case — reported with
+/// the panic message — not the end of the run.
+pub fn case(op: &str, clause: &str, f: impl FnOnce()) {
+    if let Err(e) = guarded(f) {
+        let mut v = Verdict::new();
+        v.require(false, clause, || e.clone());
+        emit_oracle_only(op, &Tok::new(), &Tok::new(), &v);
+    }
+}
